@@ -23,6 +23,14 @@ CLAIMED = {
                      "apply is a no-op, that the nonce word never changes and that seek beyond the end is an error; every edge of the real-constant graph and seeded histories (incl. the 2^64-block end entered "
                      "through public fields) are executed on the code and validated by TLC against the ideal spec.",
                 note="Trusted: as C02; the teleport into the 2^64-block end relies on Buffer's public fields meaning what Stream.tla says (checked by the drift comparison on all graph edges)."),
+    "C14": dict(level="model_checking", design="5/C14", technique="TLC exhaustive check of the refill/refill4 counter model at scaled word size + TLC trace validation of refill events against ChaChaFn",
+                text="MCGuts.tla models refill_wide's lane arithmetic (d0123, add_pos) and the single-block increment; TLC checks Refill4Impl = Refill^4 for every counter and stream-id value of a scaled word. "
+                     "Recorded refill/refill4 calls of the real code at all carry points, double rounds 0..10, per build profile, forced SIMD backend (hook H1) and the portable backend are validated block by block by TLC.",
+                note="Trusted: TLC, ChaChaFn.tla (published vectors), uninterpreted-block abstraction in the small model, harness recording (canary)."),
+    "C15": dict(level="model_checking", design="5/C15", technique="TLC exhaustive check of parameter/equality laws over all pairs of scaled states + TLC trace validation of set/get/eq/refill events",
+                text="MCGuts.tla: get/set round trip, isolation and exactness of stream32_eq/stream64_eq are checked by TLC over all pairs of states at a scaled word size; the same calls on the real code "
+                     "(boundary and random 64-bit values, single-bit differences in each of the 12 words, states built directly vs. via setters) are validated by TLC against TraceGuts.tla.",
+                note="Trusted: TLC, ChaChaFn.tla, sampled values at the real word size."),
 }
 
 PENDING = {  # properties whose checks are not built yet in this tree (kept current as checks land)
